@@ -839,7 +839,16 @@ pub fn one_case(ctx: &Ctx, i: usize, id: String, stream_name: &str) -> Case {
                     let ords: Vec<usize> = nb.keys().copied().collect();
                     let ord = *rng.pick(&ords);
                     let tok = nb[&ord];
+                    // (C09) the frames and the status word of a non-blocking transfer are owned by the
+                    // driver: they must not be released while the chain is still posted to the device
+                    let _ = crate::c09_drop::take_frees();
+                    crate::c09_drop::watch(true);
                     let r = guarded(|| snd.pcm_xfer_ok(tok));
+                    crate::c09_drop::watch(false);
+                    let freed = crate::c09_drop::take_frees();
+                    if !freed.is_empty() {
+                        c.fail(format!("[C09] pcm_xfer_ok({:?}) released {} driver-owned buffer(s) that are still shared with the live device", r.as_ref().map(|x| x.as_ref().map(|_| ()).map_err(|e| format!("{:?}", e))), freed.iter().map(|(_, n)| n).sum::<usize>()));
+                    }
                     let rs = res_unit(r);
                     // the transfer is consumed when the completion was popped: on success and (since fix
                     // 097f5f5, which makes pcm_xfer_ok check the device's status) on `IoError`
